@@ -26,13 +26,22 @@ ASSUMPTIONS = [
 ]
 
 CONSTRUCTORS = ["Field(AnyArray(a))", "Field(a)", "from_raw", "makeField", "cast_domain", "real", "imag",
-                "binop", "mf_from_raw", "mf_from_dict", "full", "astype_same", "scalar_mul"]
+                "binop", "mf_from_raw", "mf_from_dict", "full", "astype_same", "scalar_mul",
+                # source arrays that are ndarray SUBCLASS instances (user subclass, memory map)
+                "Field(a:subclass)", "makeField(a:subclass)", "AnyArray(a:subclass)", "makeField(a:memmap)"]
 ROOTS = ["source", "val", "raw", "asnumpy", "val.val"]
 
 DERIV_NP = ["view", "reshape", "ellipsis", "slice", "T", "asarray", "real", "ravel"]
 DERIV_AA = ["view", "reshape", "ellipsis", "slice", "T", "real", "val"]
 WRITES_NP = ["setitem0", "setall", "iadd", "ufunc_out", "copyto", "fill", "sort", "flat", "put", "imul", "place"]
 WRITES_AA = ["setitem0", "setall", "iadd", "ufunc_out", "imul"]
+
+
+class _SubArr(np.ndarray):
+    """a user-defined ndarray subclass"""
+
+
+_KEEP = []
 
 
 def _mk(constructor, dtype):
@@ -42,6 +51,22 @@ def _mk(constructor, dtype):
     cplx = dtype == "c16"
     base = np.array([1.5, -2.0, 0.25]) + (1j * np.array([0.5, 1.0, -3.0]) if cplx else 0)
     a = np.array(base)   # fresh, owns its data
+    if constructor.endswith(":subclass)"):
+        a = a.view(_SubArr)
+        if constructor.startswith("Field("):
+            return ift.Field(ift.DomainTuple.make(dom), a), a
+        if constructor.startswith("AnyArray("):
+            return ift.Field(ift.DomainTuple.make(dom), ift.AnyArray(a)), a
+        return ift.makeField(dom, a), a
+    if constructor.endswith(":memmap)"):
+        import tempfile
+        tf = tempfile.NamedTemporaryFile(prefix="c07_mm_", suffix=".dat")
+        mm = np.memmap(tf.name, dtype=base.dtype, mode="w+", shape=base.shape)
+        mm[...] = base
+        _KEEP.append(tf)
+        if len(_KEEP) > 4:
+            _KEEP.pop(0).close()
+        return ift.makeField(dom, mm), mm
     if constructor == "Field(AnyArray(a))":
         return ift.Field(ift.DomainTuple.make(dom), ift.AnyArray(a)), a
     if constructor == "Field(a)":
